@@ -74,7 +74,8 @@ static json ViewOf(World& w) {
   json v = json::array(); std::set<PictID> all; for (const auto& pict : *w.oss) all.insert(pict.uid);
   for (const auto p : all) {
     const auto* h = w.oss->Src()(p); const auto* op = w.oss->Ops()(p);
-    json it = { {"pid", p}, {"parents", w.oss->Graph().ParentsOf(p)}, {"isOp", op != nullptr}, {"hasData", h != nullptr && !h->empty()},
+    const auto pos = w.oss->Grid()(p);
+    json it = { {"pid", p}, {"row", pos.has_value() ? pos->row : -1}, {"col", pos.has_value() ? pos->column : -1}, {"parents", w.oss->Graph().ParentsOf(p)}, {"isOp", op != nullptr}, {"hasData", h != nullptr && !h->empty()},
                 {"status", StatusName(w.oss->Ops().StatusOf(p))}, {"broken", op != nullptr && op->broken}, {"outdated", op != nullptr && op->outdated},
                 {"type", op == nullptr ? "" : op->type == ops::Type::rsMerge ? "merge" : op->type == ops::Type::rsSynt ? "synt" : "tba"}, {"n", 0}, {"terms", 0} };
     if (auto* s = w.Src(p); s != nullptr) { it["n"] = BasesOf(s->schema).size(); it["terms"] = TermsOf(s->schema); }
@@ -169,6 +170,8 @@ static void Apply(World& w, const json& c, const json& wit, size_t step, vh::Rep
     for (const auto p2 : all) (void)w.oss->Src().OpenSrc(p2);
     (void)locked;
   }
+  else if (o == "ShiftPict") (void)ossRef.Grid().ShiftPict(p, c["n"].get<int32_t>());
+  else if (o == "LoadPosition") { if (ossRef.Contains(p)) ossRef.Grid().LoadPosition(p, oss::GridPosition{ c["a"].get<int32_t>(), c["b"].get<int32_t>() }); }
   else if (o == "Lock") { if (auto* s = w.Src(p); s != nullptr) s->unwritable = true; }
   else if (o == "Save") { if (auto* s = w.Src(p); s != nullptr) s->TriggerSave(); }
   else if (o == "InitFor") {
@@ -190,7 +193,7 @@ static std::string CompareView(const json& got, const json& exp, bool& freshness
   if (got.size() != exp.size()) return "number of pictograms";
   for (size_t i = 0; i < got.size(); ++i) {
     const auto& g = got[i]; const auto& e = exp[i];
-    for (const char* k : { "pid", "parents", "isOp", "hasData", "type", "n", "terms", "broken", "outdated", "status" }) if (g[k] != e[k]) {
+    for (const char* k : { "pid", "parents", "isOp", "hasData", "type", "n", "terms", "broken", "outdated", "status", "row", "col" }) if (g[k] != e[k]) {
       if (std::string(k) == "status" || std::string(k) == "outdated") freshness = g["status"] == "done" && e["status"] != "done";
       return std::string(k) + " of pictogram " + std::to_string(g["pid"].get<int>()) + ": " + g[k].dump() + " instead of " + e[k].dump();
     }
@@ -258,7 +261,8 @@ static int Record(const vh::Args& args) {
         else { ev = ev0("InsertOperation"); ev["new"] = nextPict++; ev["a"] = pick(all); ev["b"] = pick(all); }
       }
       else if (wgt < 14 && all.size() < 7) { ev = ev0("InsertOperation"); ev["new"] = nextPict++; ev["a"] = pick(all); ev["b"] = pick(all); }
-      else if (wgt < 18) { ev = ev0("Erase"); ev["p"] = pick(all); }
+      else if (wgt < 17) { ev = ev0("Erase"); ev["p"] = pick(all); }
+      else if (wgt < 18) { ev = ev0("ShiftPict"); ev["p"] = pick(all); ev["n"] = static_cast<int>(g() % 4) - 1; }
       else if (wgt < 34) {   // connect a base pictogram that has no source yet (a re-connection replaces every constituent: outside the model's content abstraction)
         std::vector<PictID> fresh; for (const auto p : bases) if (w.oss->Src()(p)->empty()) fresh.push_back(p);
         if (fresh.empty()) { --st; continue; }
